@@ -2646,6 +2646,10 @@ func TestVerifNotify(t *testing.T) {
 			}
 			out.line(cs, op, obs, tags...)
 		}
+		if nfRootsIs(ops) {
+			nfRootsRunOps(t, emit, ops) // a client-side case (zz_verif_notifyroots_test.go)
+			return
+		}
 		i := 0
 		drained := false
 		nfRunCase(t, hook, emit, func(w *nfWorld, step int) string {
@@ -2692,6 +2696,14 @@ func TestVerifNotify(t *testing.T) {
 	}
 	for v := 0; v < nfScriptedShapes; v++ {
 		runOps(fmt.Sprintf("s%d", v), nfScripted(verifRng(int64(v)), hookTok, v), "scripted")
+	}
+	// client side: the client's roots against every configuration of its roots capability
+	for i, cfg := range nfRootsConfigs {
+		runOps(fmt.Sprintf("rs%d", i), nfRootsScripted(cfg), "scripted")
+	}
+	for c, nr := 0, verifN(400, 6000); c < nr; c++ {
+		emit := func(op, obs string, tags ...string) { out.line(fmt.Sprintf("r%d", c), op, obs, tags...) }
+		nfRootsRun(t, emit, nfRootsGen(verifRng(int64(500000+c))))
 	}
 	n := verifN(3000, 40000)
 	for c := 0; c < n; c++ {
